@@ -157,6 +157,9 @@ probes! {
     lang_where_clause_dispatch = |s| { fn show_all<I>(it: I) -> String where I: IntoIterator, I::Item: std::fmt::Display { it.into_iter().map(|x| x.to_string()).collect::<Vec<_>>().join("/") } format!("{}|{}|{}", show_all(s.chars()), show_all(vec![1, 2]), show_all(s.split(','))) };
     lang_cmp_chain = |s| { let mut v: Vec<(usize, &str)> = s.split(',').map(|x| (x.len(), x)).collect(); v.sort_by(|a, b| a.0.cmp(&b.0).then_with(|| b.1.cmp(a.1))); let best = v.iter().max_by_key(|(l, _)| *l).map(|(_, x)| *x); format!("{v:?}{best:?}") };
     lang_entry_count = |s| { let mut m: BTreeMap<char, Vec<usize>> = BTreeMap::new(); for (i, c) in s.chars().enumerate() { m.entry(c).or_default().push(i); } let top = m.iter().max_by_key(|(_, v)| v.len()).map(|(c, v)| (*c, v.len())); format!("{m:?}{top:?}") };
+    slice_strip = |s| { let v: Vec<char> = s.chars().collect(); let p = ['a', 'b']; format!("{:?}{:?}{:?}{:?}", v.strip_prefix(&p[..]).map(|r| r.len()), v.strip_suffix(&[' ']).map(|r| r.len()), v.get(1..3), v.get(..=0).map(|x| x.to_vec())) };
+    slice_get_ranges = |s| { let v = nums(s); format!("{:?}{:?}{:?}{:?}", v.get(1..), v.get(..2), v.get(5..2), std::slice::from_ref(&s.len())) };
+    slice_splits = |s| { let v: Vec<char> = s.chars().collect(); let f = |c: &char| *c == ','; format!("{:?}|{:?}|{:?}|{:?}", v.rsplit(f).map(|x| x.len()).collect::<Vec<_>>(), v.splitn(2, f).map(|x| x.len()).collect::<Vec<_>>(), v.rsplitn(2, f).map(|x| x.len()).collect::<Vec<_>>(), v.split_inclusive(f).map(|x| x.len()).collect::<Vec<_>>()) };
     // ---- String
     string_build = |s| { let mut o = String::with_capacity(4); o.push_str(s); o.push('!'); o.insert(0, '>'); o.insert_str(1, "ab"); o += "z"; o };
     string_pop_trunc = |s| { let mut o = s.to_string(); let p = o.pop(); let l = o.chars().count(); if l > 1 && o.is_char_boundary(1) { o.truncate(1); } format!("{o}{p:?}") };
